@@ -43,7 +43,11 @@ Inductive stmt :=
 | Commit
 | Rollback
 | SetAC (b : bool)               (* SET autocommit = b *)
-| Bad.                           (* a statement that fails during analysis (unknown table) *)
+| Bad                            (* a statement that fails during analysis (unknown table) *)
+| WriteIC (t : tid) (w : wop)    (* a write flagged as DDL, e.g. TRUNCATE TABLE t: implicit commit when it closes *)
+| WriteAll (t : tid) (w : wop).  (* a write whose planning resolves every table of the database (unfiltered DELETE FROM t,
+                                    planned as a truncate after looking for referencing foreign keys): all tables are
+                                    registered in the session, then t is written *)
 
 Inductive result :=
 | ROk
@@ -68,6 +72,10 @@ Definition cur (d : tid -> data) (stg : tid -> option data) (t : tid) : data :=
 Definition touch (d : tid -> data) (stg : tid -> option data) (t : tid) : tid -> option data :=
   put stg t (cur d stg t).
 
+(* every table of the database gets its session entry *)
+Definition touch_all (d : tid -> data) (stg : tid -> option data) : tid -> option data :=
+  fun t => Some (cur d stg t).
+
 (* Session.CommitTransaction: every table of the session replaces the global one *)
 Definition publish (d : tid -> data) (stg : tid -> option data) : tid -> data :=
   fun t => cur d stg t.
@@ -80,6 +88,11 @@ Definition close (d : tid -> data) (se : sess) (autoc : bool) : (tid -> data) * 
   if negb (tx se) then (d, se)
   else if ign se then (d, se)
   else if negb autoc then (d, se)
+  else (publish d (staged se), mkSess (staged se) false (ign se) (ac se)).
+
+(* TransactionCommittingIter.Close with implicitCommit set: commits whatever the mode; ignoreAutocommit is NOT reset *)
+Definition close_ic (d : tid -> data) (se : sess) : (tid -> data) * sess :=
+  if negb (tx se) then (d, se)
   else (publish d (staged se), mkSess (staged se) false (ign se) (ac se)).
 
 (* one statement of session s, from Engine.QueryWithBindings to the Close of the iterator *)
@@ -113,6 +126,19 @@ Definition step (st : state) (s : sid) (q : stmt) : state * result :=
   | SetAC b =>
       let c := close (db st) (mkSess (staged se) (tx se) (ign se) b) b in
       (mkState (fst c) (set_sess (ss st) s (snd c)), ROk)
+  | WriteIC t w =>
+      let stg := touch (db st) (staged se) t in
+      let a := apply w (cur (db st) (staged se) t) in
+      let stg' := match a with Some x => put stg t x | None => stg end in
+      let c := close_ic (db st) (mkSess stg' (tx se) (ign se) (ac se)) in
+      (mkState (fst c) (set_sess (ss st) s (snd c)), match a with Some _ => ROk | None => RErr end)
+  | WriteAll t w =>
+      let stg := touch_all (db st) (staged se) in
+      let a := apply w (cur (db st) (staged se) t) in
+      let stg' := match a with Some x => put stg t x | None => stg end in
+      let se1 := mkSess stg' (tx se) (ign se) (ac se) in
+      let c := close (db st) se1 (ac se) in
+      (mkState (fst c) (set_sess (ss st) s (snd c)), match a with Some _ => ROk | None => RErr end)
   end.
 
 Fixpoint run (st : state) (h : list (sid * stmt)) : state * list result :=
@@ -182,7 +208,7 @@ Fixpoint serial (d : tid -> data) (bs : list block) : (tid -> data) * list resul
 End Txn.
 
 Arguments Read {wop}. Arguments Write {wop}. Arguments Begin {wop}. Arguments Commit {wop}.
-Arguments Rollback {wop}. Arguments SetAC {wop}. Arguments Bad {wop}.
+Arguments Rollback {wop}. Arguments SetAC {wop}. Arguments Bad {wop}. Arguments WriteIC {wop}. Arguments WriteAll {wop}.
 Arguments ROk {data}. Arguments RErr {data}. Arguments RRows {data}.
 Arguments RRead {wop}. Arguments RWrite {wop}.
 Arguments Auto {wop}. Arguments Txn {wop}.
@@ -190,8 +216,8 @@ Arguments mkSess {data}. Arguments mkState {data}.
 Arguments staged {data}. Arguments tx {data}. Arguments ign {data}. Arguments ac {data}.
 Arguments db {data}. Arguments ss {data}.
 Arguments idle_sess {data}. Arguments no_tables {data}.
-Arguments begin_tx {data}. Arguments cur {data}. Arguments touch {data}. Arguments put {data}. Arguments publish {data}.
-Arguments set_sess {data}. Arguments close {data}. Arguments step {data wop}. Arguments run {data wop}.
+Arguments begin_tx {data}. Arguments cur {data}. Arguments touch {data}. Arguments touch_all {data}. Arguments put {data}. Arguments publish {data}.
+Arguments set_sess {data}. Arguments close {data}. Arguments close_ic {data}. Arguments step {data wop}. Arguments run {data wop}.
 Arguments view {data}. Arguments init {data}. Arguments stmt_of {wop}. Arguments flatten {wop}.
 Arguments upd {data}. Arguments apply_rw {data wop}. Arguments apply_rws {data wop}.
 Arguments apply_block {data wop}. Arguments serial {data wop}.
@@ -216,7 +242,8 @@ Inductive cwop :=
 | UpdAll (dv : Z)                (* UPDATE t SET v = v + dv *)
 | UpdKey (k v : Z)               (* UPDATE t SET v = v WHERE k = k *)
 | DelKey (k : Z)                 (* DELETE FROM t WHERE k = k *)
-| DelGe (k : Z).                 (* DELETE FROM t WHERE k >= k *)
+| DelGe (k : Z)                  (* DELETE FROM t WHERE k >= k *)
+| DelAll.                        (* DELETE FROM t (no filter; planned as a truncate), TRUNCATE TABLE t *)
 
 Fixpoint ins_all (kvs : list (Z * Z)) (d : rows) : option rows :=
   match kvs with
@@ -231,4 +258,5 @@ Definition capply (w : cwop) (d : rows) : option rows :=
   | UpdKey k v => Some (map (fun kv => if Z.eqb (fst kv) k then (fst kv, v) else kv) d)
   | DelKey k => Some (filter (fun kv => negb (Z.eqb (fst kv) k)) d)
   | DelGe k => Some (filter (fun kv => Z.ltb (fst kv) k) d)
+  | DelAll => Some []
   end.
